@@ -30,7 +30,13 @@ RULE = (
     'node of a caller-made transform_coords graph; lengths with variances; second use of the same data with '
     'repr / copy / comparison / caught exceptions / fed-back results / customised graphs in between; 0..2^17+3 '
     'beam vectors around powers of two, and one heavy case per run beyond 2^20 vectors (2^20+7, 2^21+5, '
-    '3 x 400001) judged element-wise; '
+    '3 x 400001) judged element-wise; in every shard also: single (0-d) beams / positions and pixels with a component '
+    'of 1e-160..1e-300 or subnormal next to ordinary ones; call - in-place write into an operand (+=, *=, numpy write, '
+    'slice, .fields component, unit) - call on the same objects - in-place write into every result - call, for the '
+    'accessors and every kernel with the sample / the source exactly at the origin (0-d, -0.0, per pixel) or nowhere '
+    'special (earlier results, arguments and repeated results must be independent); operand shapes made of 2 / 3 / 4 '
+    '(3 x 3, transposed, one-dim incident); dim names that are not NFC / NFKC, coordinates under names that merely '
+    'normalise to beamline names; one entry-point module per shard 1..3 called first in a fresh interpreter; '
     'non-trivial unless a single axis-aligned pair; distinct = (function, unit, shape class, '
     'angle class, norm decade) signatures'
 )
@@ -334,7 +340,11 @@ CONTAINERS = ('dataarray', 'dataarray', 'dataarray_2d', 'dataarray_binned', 'dat
 # names the caller may give the per-pixel dimension: the usual one, names scipp / scippneutron use themselves for
 # dims or coordinates (graph nodes, event buffers, table rows, default names), and an arbitrary unique string
 DIM_NAMES = ('pixel', 'x', 'event', 'row', 'position', 'scattered_beam', 'two_theta', 'L1', 'Ltotal', 'tof', 'dim_0',
-             'detector_number', '3f2b9c1e-77aa-4d0e-9b1f-0c5d6e7f8a9b')
+             'detector_number', '3f2b9c1e-77aa-4d0e-9b1f-0c5d6e7f8a9b',
+             # names that are not in NFC / NFKC form: decomposed accent, ANGSTROM SIGN, fullwidth letters, ligature,
+             # conjoining jamo, GREEK QUESTION MARK, MICRO SIGN -- kept code point by code point
+             'de\u0301tecteur', '\u212b', '\uff50\uff49\uff58\uff45\uff4c', '\ufb01bre', '\u1100\u1161', 'x\u037e',
+             '\u00b5m')
 GRAPH_NAMES = ('position', 'source_position', 'sample_position', 'incident_beam', 'scattered_beam', 'L1', 'L2',
                'Ltotal', 'two_theta')
 
@@ -1405,6 +1415,636 @@ def _heavy_shape(ctx, r, sizes, what):
                       {'family': 'heavy', 'what': what}, function='two_theta')
 
 
+# ------------------------------------------------------------------- round-7 classes ---
+# (1) single (0-d) beams / positions with a component that is tiny but not zero (the leftover of a fit or of a
+#     rotation: 1e-160 .. 1e-300, subnormal) next to ordinary components: the square of such a component is not
+#     representable, the angle and the lengths are the ordinary ones (to 1e-300 relative)
+TINY_FORMS = ('one tiny component in the scattered beam', 'one tiny component in the incident beam',
+              'a tiny component in both beams', 'two tiny components in one beam', 'a subnormal component',
+              'per-pixel beams, a tiny component in some pixels')
+
+
+def _tiny(rng, subnormal=False):
+    e = rng.uniform(-323.0, -308.5) if subnormal else rng.uniform(-300.0, -160.0)
+    return float((1.0 if rng.random() < 0.5 else -1.0) * 10.0 ** e)
+
+
+def tiny_component_case(rng, ctx, scn, K, mon, form, index):
+    per_pixel = form.startswith('per-pixel')
+    n = int(rng.integers(3, 9)) if per_pixel else 1
+    a, b, classes = gen_pairs(rng, n, ctx, cls=ANGLE_CLASSES.index('random'))
+    a0, b0 = a.copy(), b.copy()
+    ja, jb = int(rng.integers(0, 3)), int(rng.integers(0, 3))
+    sub = form.startswith('a subnormal')
+    rows = range(n) if not per_pixel else range(0, n, 2)
+    for i in rows:
+        if form in ('one tiny component in the scattered beam', 'a tiny component in both beams') or sub or per_pixel:
+            b[i, jb] = _tiny(rng, sub)
+        if form in ('one tiny component in the incident beam', 'a tiny component in both beams'):
+            a[i, ja] = _tiny(rng, sub)
+        if form.startswith('two tiny'):
+            b[i, jb] = _tiny(rng)
+            b[i, (jb + 1) % 3] = _tiny(rng)
+    for x, x0 in ((a, a0), (b, b0)):   # the ordinary components carry the norm that was drawn (1e-6 .. 1e6)
+        big = np.abs(x) > 1e-150
+        x[big] = (x * (np.linalg.norm(x0, axis=1, keepdims=True)
+                       / np.linalg.norm(np.where(big, x, 0.0), axis=1, keepdims=True)))[big]
+    u1, u2 = LEN_UNITS[rng.integers(0, 5)], LEN_UNITS[rng.integers(0, 5)]
+    ctx.hit('tiny non-zero component: ' + form)
+    if not per_pixel:
+        ctx.hit('0-d beam pair with a component of 1e-160 .. 1e-300 (or subnormal) next to ordinary components')
+        va, vb = vec(a[0], u1), vec(b[0], u2)
+    else:
+        va, vb = (vec(a[0], u1) if index % 2 else vec(a, u1)), vec(b, u2)
+    case = {'family': 'tiny non-zero component: ' + form, 'a': describe(va), 'b': describe(vb)}
+    mon.origin = 'tiny component'
+    try:
+        # the kernel monitors judge every return against the long-double angle / norm of these very vectors
+        fwd = K.two_theta(incident_beam=va, scattered_beam=vb)
+        rev = K.two_theta(scattered_beam=va, incident_beam=vb)
+        K.L1(incident_beam=va)
+        K.L2(scattered_beam=vb)
+        K.total_straight_beam_length_no_scatter(source_position=vec(a[0], u2), position=vb)
+        K.straight_scattered_beam(position=vb, sample_position=vec(a[0], u2))
+        ctx.event('tiny_component.kernel')
+        d = float(np.max(np.abs(np.asarray(fwd.values).astype(si.LD) - np.asarray(rev.values).astype(si.LD))))
+        ctx.dev('invariance.swap, tiny component (fraction of bound)', d / (2 * TOL_ANGLE))
+        if not d <= 2 * TOL_ANGLE:
+            ctx.violation('invariance', f'two_theta changes under swap of beams with a tiny component: {d:.3g} rad',
+                          case, transform='swap')
+        # the same single detector / pixels through the accessors: beams stored as coordinates, and positions with
+        # the sample exactly at the origin (so that the tiny component survives the subtraction)
+        dim = 'pixel'
+        shape = [n] if per_pixel else []
+        dims = [dim] if per_pixel else []
+        data = sc.ones(dims=dims, shape=shape, unit='counts')
+        want = geom.angle(np.broadcast_to(a[0] if va.ndim == 0 else a, b.shape), b)
+        want = want if per_pixel else want[0]
+        beams = sc.DataArray(data.copy(), coords={'incident_beam': vec(a[0] if va.ndim == 0 else a, u2),
+                                              'scattered_beam': vb})
+        _judge_two_theta_routes(ctx, scn, beams, want, dict(case, via='beams stored as coordinates'),
+                                'tiny_component.two_theta', form=form)
+        src = -a[0]
+        inc0 = np.zeros(3) - src           # IEEE: what the code sees
+        da = sc.DataArray(data.copy(), coords={'source_position': vec(src, u2), 'sample_position': vec(np.zeros(3), u2),
+                                               'position': vb.copy()})
+        want2 = geom.angle(np.broadcast_to(inc0, b.shape), b)
+        want2 = want2 if per_pixel else want2[0]
+        _judge_two_theta_routes(ctx, scn, da, want2, dict(case, via='positions, sample at the origin'),
+                                'tiny_component.two_theta', form=form)
+        got = accessor_results(scn, da, ('L1', 'L2', 'Ltotal_scatter', 'Ltotal_noscatter', 'scattered_beam'))
+        bb = b if per_pixel else b[0]
+        l1, l2 = geom.norm(inc0), geom.norm(bb)
+        judge_results(ctx, got, {'L1': ('rel', l1), 'L2': ('rel', l2), 'scattered_beam': ('exact', bb - np.zeros(3)),
+                                 'Ltotal_scatter': ('rel', l1.astype(np.float64).astype(si.LD)
+                                                    + l2.astype(np.float64).astype(si.LD)),
+                                 'Ltotal_noscatter': ('rel', geom.norm(bb - src))},
+                      u2, dict(case, via='positions, sample at the origin'), 'tiny_component.accessor', form=form)
+    finally:
+        mon.origin = 'direct'
+    return ('tiny_component', form, u1, u2)
+
+
+# (2) in-place modification between two calls on the very same objects, and aliasing of results and arguments:
+#     a result is the value for the contents the arguments had WHEN ASKED; afterwards results and arguments are
+#     independent objects (the kernels document no views; scn.position & co. return the stored coordinate itself:
+#     not judged). Origins exactly at zero (the usual instrument definition) are forced.
+ORIGIN_FORMS = ('sample exactly at the origin (0-d, unit of the positions)',
+                'source exactly at the origin (0-d, unit of the positions)',
+                'sample at the origin written with negative zeros',
+                'sample at the origin, stored per pixel (all zero)',
+                'no position at the origin')
+WRITES = ('shifted in place (+=)', 'scaled in place (*=)', 'numpy write into .values', 'one slice scaled in place',
+          'one component through .fields', 'unit replaced in place')
+ALIAS_CONTAINERS = ('dataarray', 'dataset_1', 'dataarray_2d', 'dataarray_binned', 'dataset_no_items',
+                    'dataarray_subclass')
+ALIAS_QUANTITIES = ('incident_beam', 'scattered_beam', 'L1', 'L2', 'two_theta', 'Ltotal_scatter', 'Ltotal_noscatter')
+
+
+def _snap(v):
+    return (np.array(v.values, copy=True), v.unit, tuple(v.dims))
+
+
+def _same_snap(v, s):
+    return (tuple(v.dims) == s[2] and v.unit == s[1] and np.shape(v.values) == np.shape(s[0])
+            and np.array_equal(np.asarray(v.values), s[0], equal_nan=True))
+
+
+def write_in_place(rng, var, how, scale):
+    """Modify ``var`` in place (the object stays the same); returns the label of what was done."""
+    is_vec = var.dtype == sc.DType.vector3
+    shift = rng.normal(size=3) * 0.3 * scale if is_vec else float(rng.uniform(0.1, 0.5) * scale)
+    if how == 'one slice scaled in place' and var.ndim == 0:
+        how = 'scaled in place (*=)'
+    if how == 'one component through .fields' and not is_vec:
+        how = 'shifted in place (+=)'
+    if how == 'shifted in place (+=)':
+        var += sc.vector(shift, unit=var.unit) if is_vec else sc.scalar(shift, unit=var.unit, dtype=var.dtype)
+    elif how == 'scaled in place (*=)':
+        var *= 1.5
+    elif how == 'numpy write into .values':
+        v = var.values
+        v[...] = v * 0.75 + shift
+    elif how == 'one slice scaled in place':
+        d = var.dims[-1]
+        j = int(rng.integers(0, var.sizes[d]))
+        var[d, j:j + 1] *= 2.0
+    elif how == 'one component through .fields':
+        f = ('x', 'y', 'z')[int(rng.integers(0, 3))]
+        fld = getattr(var.fields, f)
+        fld += sc.scalar(float(shift[0]), unit=var.unit)
+    elif how == 'unit replaced in place':
+        var.unit = [u for u in LEN_UNITS if sc.Unit(u) != var.unit][int(rng.integers(0, 4))]
+    else:
+        raise ValueError(how)
+    return how
+
+
+def _write_into_result(r, j):
+    if j % 2 == 0 or r.ndim == 0:
+        r *= 0.5
+    else:
+        v = r.values
+        v[...] = 1.25
+
+
+def alias_sequence(rng, ctx, call, args, how, target, case, judge, level, scale, **keys):
+    """call() -> in-place write into args[target] -> call() -> in-place write into the results -> call().
+
+    ``call`` returns {name: variable}; ``args`` {name: variable} are the very objects every call uses; ``judge(results,
+    phase)`` compares results with the Euclidean values of the CURRENT contents of the arguments."""
+    def bad(phase, what, **extra):
+        ctx.violation('aliasing', f'{level}: {what} ({case["family"]})', dict(case, phase=phase, **extra),
+                      phase=phase, level=level, **keys)
+
+    r1 = call()
+    judge(r1, 'first call')
+    for k, r in r1.items():
+        for n, v in args.items():
+            if r is v:
+                bad('identity', f'{k} IS the argument {n} (the same object)', quantity=k, argument=n)
+    s1 = {k: _snap(r) for k, r in r1.items()}
+    if how == 'unit replaced in place' and target == '*':
+        for v in args.values():
+            u = v.unit
+            break
+        new = [x for x in LEN_UNITS if sc.Unit(x) != u][int(rng.integers(0, 4))]
+        for v in args.values():
+            v.unit = new
+        done = how
+    else:
+        done = write_in_place(rng, args[target], how, scale)
+    ctx.hit('operand written in place between two calls: ' + done)
+    ctx.event('aliasing.earlier_result_after_write_to_argument')
+    for k, r in r1.items():
+        if not _same_snap(r, s1[k]):
+            bad('write to argument', f'the {k} obtained BEFORE {target if target != "*" else "the positions"} was '
+                f'modified in place ({done}) changed with it', quantity=k, write=done)
+            s1[k] = _snap(r)
+    # (k) the same objects again: the result for the NEW contents
+    r2 = call()
+    ctx.event('in_place.second_call')
+    judge(r2, 'second call after in-place modification')
+    for k in r2:
+        if r2[k] is r1[k]:
+            bad('identity', f'the second call returned the {k} object of the first call', quantity=k)
+    s2 = {k: _snap(r) for k, r in r2.items()}
+    a2 = {n: _snap(v) for n, v in args.items()}
+    # (l) write into every (writable) result: arguments, earlier results and the other results stay what they were
+    for j, (k, r) in enumerate(r2.items()):
+        try:
+            _write_into_result(r, j)
+        except (sc.VariableError, ValueError, RuntimeError) as e:   # a read-only result: nothing to alias through
+            ctx.count(f'result not writable ({type(e).__name__}): ' + k)
+            continue
+        ctx.event('aliasing.arguments_after_write_to_result')
+        for n, v in args.items():
+            if not _same_snap(v, a2[n]):
+                bad('write to result', f'writing in place into the returned {k} changed the argument {n}',
+                    quantity=k, argument=n)
+                a2[n] = _snap(v)
+        for k1, r_ in r1.items():
+            if not _same_snap(r_, s1[k1]):
+                bad('write to result', f'writing in place into the returned {k} changed the {k1} returned by the '
+                    'earlier call', quantity=k, other=k1)
+                s1[k1] = _snap(r_)
+        for k2, r_ in r2.items():
+            if k2 != k and k2 not in list(r2)[:j] and not _same_snap(r_, s2[k2]):
+                bad('write to result', f'writing in place into the returned {k} changed the returned {k2}',
+                    quantity=k, other=k2)
+    r3 = call()
+    ctx.event('aliasing.repeated_call')
+    judge(r3, 'repeated call after writing into the results')
+    for k, r in r3.items():
+        if not _same_snap(r, s2[k]):
+            bad('repeat', f'repeating the call on the same arguments after writing into the earlier result gives a '
+                f'different {k}', quantity=k)
+
+
+def _positions_want(source, sample, pos):
+    """Euclidean quantities of float64 positions (numpy, broadcastable), beams = IEEE differences."""
+    inc = sample - source
+    sca = pos - sample
+    l1, l2 = geom.norm(inc), geom.norm(sca)
+    l1b = np.broadcast_to(l1, np.shape(l2)) if np.ndim(l1) <= np.ndim(l2) else l1
+    return {'incident_beam': ('exact', inc), 'scattered_beam': ('exact', sca), 'L1': ('rel', l1), 'L2': ('rel', l2),
+            'two_theta': ('angle', geom.angle(np.broadcast_to(inc, np.broadcast_shapes(inc.shape, sca.shape)), sca)),
+            'Ltotal_scatter': ('rel', np.asarray(l1b).astype(np.float64).astype(si.LD)
+                               + np.asarray(l2).astype(np.float64).astype(si.LD)),
+            'Ltotal_noscatter': ('rel', geom.norm(pos - source))}
+
+
+def aliasing_case(rng, ctx, scn, K, mon, origin, index, rep):
+    j = ORIGIN_FORMS.index(origin)
+    t = j + index + 3 * rep
+    n = int(rng.integers(2, 9))
+    unit = LEN_UNITS[t % 5]
+    a, b, classes = gen_pairs(rng, n, ctx, cls=ANGLE_CLASSES.index('random'))
+    a = a / np.linalg.norm(a, axis=1, keepdims=True) * 10.0 ** rng.uniform(-2, 2, size=(n, 1))
+    b = b / np.linalg.norm(b, axis=1, keepdims=True) * 10.0 ** rng.uniform(-2, 2, size=(n, 1))
+    scale = float(min(np.linalg.norm(a[0]), np.min(np.linalg.norm(b, axis=1))))
+    zero = np.zeros(3)
+    if origin.startswith('sample'):
+        sample = -zero if 'negative zeros' in origin else zero
+        source, pos = sample - a[0], b
+        if 'per pixel' in origin:
+            sample = np.zeros((n, 3))
+    elif origin.startswith('source'):
+        source, sample = zero, a[0]
+        pos = sample[None, :] + b
+    else:
+        sample = rng.normal(size=3) * scale
+        source, pos = sample - a[0], sample[None, :] + b
+    ctx.hit('aliasing / in-place: ' + origin)
+    container = ALIAS_CONTAINERS[t % len(ALIAS_CONTAINERS)]
+    how = WRITES[t % len(WRITES)]
+    # -- accessors: the arguments are the coordinates of the data
+    coords = {'source_position': vec(source, unit), 'sample_position': vec(sample, unit), 'position': vec(pos, unit)}
+    da = make_container(container, coords, n)
+    args = {c: da.coords[c] for c in coords}
+    target = '*' if how == 'unit replaced in place' else ('position', 'sample_position', 'source_position')[t % 3]
+    case = {'family': f'in-place modification / aliasing; {origin}', 'container': container, 'unit': unit, 'n': n,
+            'write': how, 'written': target, 'coords': {k: describe(v) for k, v in coords.items()}}
+
+    def judge_acc(res, phase):
+        cur = {c: np.array(da.coords[c].values, copy=True) for c in coords}
+        want = _positions_want(cur['source_position'], cur['sample_position'], cur['position'])
+        judge_results(ctx, res, want, str(da.coords['position'].unit), dict(case, phase=phase), 'aliasing.accessor',
+                      kind='in_place')
+
+    mon.origin = 'aliasing'
+    try:
+        alias_sequence(rng, ctx, lambda: accessor_results(scn, da, ALIAS_QUANTITIES), args, how, target, case,
+                       judge_acc, 'accessors', scale, origin=origin)
+        ctx.case(('aliasing', 'accessors', origin, container, how, target))
+    except Exception as e:  # noqa: BLE001
+        ctx.violation('accessor_raised', f'accessors around an in-place modification ({how} of {target}) on a '
+                      f'{container} raised {type(e).__name__}: {e}', case, container=container)
+    finally:
+        mon.origin = 'direct'
+    # -- kernels: the monitors judge every return against the contents the arguments have at that moment
+    l1 = np.linalg.norm(np.broadcast_to(sample, (n, 3))[0] - source)
+    l2 = np.linalg.norm(pos - sample, axis=1)
+    inc0 = np.broadcast_to(sample, (n, 3))[0] - source
+    kernels = {
+        'straight_incident_beam': {'source_position': vec(source, unit),
+                                   'sample_position': vec(np.broadcast_to(sample, (n, 3)).copy(), unit)
+                                   if t % 2 else vec(sample, unit)},
+        'straight_scattered_beam': {'position': vec(pos, unit), 'sample_position': vec(sample, unit)},
+        'total_straight_beam_length_no_scatter': {'source_position': vec(source, unit), 'position': vec(pos, unit)},
+        'L1': {'incident_beam': vec(inc0, unit)},
+        'L2': {'scattered_beam': vec(pos - sample, unit)},
+        'two_theta': {'incident_beam': vec(inc0, unit), 'scattered_beam': vec(pos - sample, unit)},
+        'total_beam_length': {'L1': sc.scalar(float(l1), unit=unit) if t % 2 else
+                              sc.array(dims=['pixel'], values=np.full(n, l1), unit=unit),
+                              'L2': sc.array(dims=['pixel'], values=l2, unit=unit)},
+    }
+    for i, (kname, kargs) in enumerate(kernels.items()):
+        khow = WRITES[(t + i) % len(WRITES)]
+        names = list(kargs)
+        ktarget = names[(t + i) % len(names)]
+        if khow == 'unit replaced in place' and kname not in ('two_theta', 'L1', 'L2'):
+            ktarget = '*'   # the difference / sum of two lengths needs one unit
+        kcase = {'family': f'in-place modification / aliasing; {origin}', 'kernel': kname, 'write': khow,
+                 'written': ktarget, 'args': {k: describe(v) for k, v in kargs.items()}}
+        f = getattr(K, kname)
+        mon.origin = 'aliasing'
+        try:
+            alias_sequence(rng, ctx, lambda f=f, kargs=kargs, kname=kname: {kname: f(**kargs)}, kargs, khow, ktarget,
+                           kcase, lambda res, phase: None, 'kernels', scale, origin=origin)
+            ctx.case(('aliasing', kname, origin, khow, ktarget))
+        except Exception as e:  # noqa: BLE001
+            ctx.violation('kernel_raised_outer', f'{kname} around an in-place modification ({khow} of {ktarget}) '
+                          f'raised {type(e).__name__}: {e}', kcase)
+        finally:
+            mon.origin = 'direct'
+
+
+# (3) sizes that coincide with the 3 components of a vector (and 2, 4): a pixel dim of length 3 next to the
+#     component axis, square 3 x 3 layouts where a transposed or mislabelled operand is shape-compatible
+COINCIDING_SHAPES = ((2,), (3,), (4,), (3, 3), (2, 3), (3, 2), (3, 4), (4, 3), (3, 3, 3))
+COINCIDING_LAYOUTS = ('same dims', 'incident beam with transposed dims', 'incident beam along the last dim only',
+                      'incident beam along the first dim only')
+
+
+def coinciding_sizes_case(rng, ctx, scn, K, mon, shape, index):
+    names = ('a', 'b', 'c')[:len(shape)]
+    layout = COINCIDING_LAYOUTS[(index + COINCIDING_SHAPES.index(shape)) % len(COINCIDING_LAYOUTS)] \
+        if len(shape) > 1 else 'same dims'
+    n = int(np.prod(shape))
+    a, b, classes = gen_pairs(rng, n, ctx)
+    u1, u2 = LEN_UNITS[rng.integers(0, 5)], LEN_UNITS[rng.integers(0, 5)]
+    B = b.reshape(*shape, 3)
+    A = a.reshape(*shape, 3)
+    vb = sc.vectors(dims=list(names), values=B, unit=u2)
+    if layout == 'same dims':
+        va = sc.vectors(dims=list(names), values=A, unit=u1)
+    elif layout == 'incident beam with transposed dims':
+        perm = tuple(reversed(range(len(shape))))
+        va = sc.vectors(dims=[names[p] for p in perm], values=np.ascontiguousarray(np.transpose(A, (*perm, len(shape)))),
+                        unit=u1)
+    elif layout == 'incident beam along the last dim only':
+        va = sc.vectors(dims=[names[-1]], values=np.ascontiguousarray(A[(0,) * (len(shape) - 1)]), unit=u1)
+    else:
+        va = sc.vectors(dims=[names[0]], values=np.ascontiguousarray(A[(slice(None), *(0,) * (len(shape) - 1))]),
+                        unit=u1)
+    ctx.hit('size coinciding with the vector length: shape ' + 'x'.join(map(str, shape)))
+    ctx.hit('coinciding sizes layout: ' + layout)
+    mon.origin = 'coinciding sizes'
+    try:
+        # own expectation by explicit axes (the monitors judge the same returns through scipp's labelled broadcast)
+        if layout in ('same dims', 'incident beam with transposed dims'):
+            Aw = A
+        elif layout == 'incident beam along the last dim only':
+            Aw = np.broadcast_to(A[(0,) * (len(shape) - 1)], B.shape)
+        else:
+            Aw = np.broadcast_to(A[(slice(None), *(0,) * (len(shape) - 1))].reshape(
+                shape[0], *(1,) * (len(shape) - 1), 3), B.shape)
+        case = {'family': f'sizes coinciding with the vector length: {shape}, {layout}', 'a': describe(va),
+                'b': describe(vb)}
+        tt = K.two_theta(incident_beam=va, scattered_beam=vb)
+        tt2 = K.two_theta(incident_beam=vb, scattered_beam=va)
+        want = geom.angle(Aw, B)
+        for r, lab in ((tt, 'two_theta'), (tt2, 'two_theta (beams swapped)')):
+            g = np.asarray(sc.transpose(r, dims=list(names)).values).astype(si.LD) if set(r.dims) == set(names) \
+                else None
+            ctx.event('coinciding_sizes.two_theta')
+            if g is None or g.shape != want.shape or not float(np.max(np.abs(g - want))) <= TOL_ANGLE:
+                d = float('nan') if g is None or g.shape != want.shape else float(np.max(np.abs(g - want)))
+                ctx.violation('two_theta_accuracy', f'{lab} of beams of shape {shape} ({layout}): dims {r.dims}, '
+                              f'deviation {d:.3g} rad from the per-element angle', case, function='two_theta')
+        K.L1(incident_beam=va)
+        l2 = K.L2(scattered_beam=vb)
+        ctx.event('coinciding_sizes.L2')
+        if l2.dims != tuple(names) or not float(np.max(si.relerr(np.asarray(l2.values).astype(si.LD),
+                                                                  geom.norm(B)))) <= 4 * EPS:
+            ctx.violation('norm', f'L2 of beams of shape {shape}: dims {l2.dims} or values off', case, function='L2')
+        K.straight_scattered_beam(position=vb, sample_position=sc.vectors(dims=va.dims, values=va.values, unit=u2))
+        K.total_straight_beam_length_no_scatter(source_position=sc.vectors(dims=va.dims, values=va.values, unit=u2),
+                                                position=vb)
+        # accessors: position (a, b[, c]); source along the first, sample along the last dim
+        if len(shape) > 1:
+            src = rng.normal(size=(shape[0], 3)) * 10.0 ** rng.uniform(-1, 1) + np.array([0.0, 0.0, -30.0])
+            smp = rng.normal(size=(shape[-1], 3)) * 1e-2
+            pos = rng.normal(size=(*shape, 3)) * 10.0 ** rng.uniform(-1, 1)
+            da = sc.DataArray(sc.ones(dims=list(names), shape=list(shape)),
+                              coords={'source_position': sc.vectors(dims=[names[0]], values=src, unit=u1),
+                                      'sample_position': sc.vectors(dims=[names[-1]], values=smp, unit=u1),
+                                      'position': sc.vectors(dims=list(names), values=pos, unit=u1)})
+            srcb = src.reshape(shape[0], *(1,) * (len(shape) - 1), 3)
+            smpb = smp.reshape(*(1,) * (len(shape) - 1), shape[-1], 3)
+            full = (*shape, 3)
+            want = _positions_want(np.broadcast_to(srcb, full), np.broadcast_to(smpb, full), pos)
+            got = accessor_results(scn, da, ('two_theta', 'L2', 'Ltotal_scatter', 'Ltotal_noscatter',
+                                             'scattered_beam'))
+            got = {k: (sc.transpose(r, dims=list(names)) if set(r.dims) == set(names) else r) for k, r in got.items()}
+            judge_results(ctx, got, want, u1, dict(case, via='accessors: source along the first, sample along the '
+                                                   'last dim'), 'coinciding_sizes.accessor')
+            # L1 / incident_beam have the dims (first, last) only
+            r = scn.L1(da)
+            w1 = geom.norm(smp[None, :, :] - src[:, None, :]) if len(shape) > 1 else None
+            if names[0] != names[-1] and set(r.dims) == {names[0], names[-1]}:
+                g = np.asarray(sc.transpose(r, dims=[names[0], names[-1]]).values).astype(si.LD)
+                ctx.event('coinciding_sizes.accessor.L1')
+                if not float(np.max(si.relerr(g, w1))) <= 8 * EPS:
+                    ctx.violation('accessor', f'scippneutron.L1 with source along {names[0]!r} ({shape[0]}) and sample '
+                                  f'along {names[-1]!r} ({shape[-1]}) is not |sample - source| element for element',
+                                  case, accessor='L1')
+            else:
+                ctx.violation('accessor', f'scippneutron.L1 has dims {r.dims}', case, accessor='L1')
+    finally:
+        mon.origin = 'direct'
+    return ('coinciding_sizes', shape, layout, u1, u2)
+
+
+# (4) names that merely NORMALISE (NFC / NFKC) to a beamline coordinate name are other names: coordinates under such
+#     names next to the real ones are ignored; alone they are not the coordinate (refused, counted)
+DECOY_NAMES = {'position': '\uff50osition',                 # FULLWIDTH LATIN SMALL LETTER P
+               'sample_position': 'sample\uff3fposition',    # FULLWIDTH LOW LINE
+               'source_position': 'source_positio\u207f',    # SUPERSCRIPT LATIN SMALL LETTER N
+               'incident_beam': 'incident_bea\u1d50',        # MODIFIER LETTER SMALL M
+               'scattered_beam': 'scat\u00adtered_beam',     # SOFT HYPHEN inside
+               'L1': 'L\u00b9', 'L2': 'L\u00b2',             # SUPERSCRIPT ONE / TWO
+               'Ltotal': 'Ltota\u217c',                      # SMALL ROMAN NUMERAL FIFTY
+               'two_theta': 'two\uff3ftheta',
+               'Ltotal ': 'Lto\u0301tal'}                    # (not NFC) combining acute
+
+
+def decoy_names_case(rng, ctx, scn, K, mon, index):
+    g = Geometry(rng, ctx, int(rng.integers(2, 9)))
+    coords = g.position_coords()
+    decoys = {}
+    for real, fake in DECOY_NAMES.items():
+        if real in coords:
+            decoys[fake] = coords[real] * float(rng.uniform(1.3, 1.9))
+        elif real.endswith('_beam'):
+            decoys[fake] = vec(rng.normal(size=3), g.unit)
+        elif real == 'two_theta':
+            decoys[fake] = sc.scalar(0.123, unit='rad')
+        else:
+            decoys[fake] = sc.scalar(float(rng.uniform(1, 2)), unit=g.unit)
+    kinds = sorted(set(CONTAINERS))
+    container = kinds[index % len(kinds)]
+    da = make_container(container, {**coords, **decoys}, g.n)
+    ctx.hit('coordinates under names that merely normalise (NFKC) to beamline names next to the real ones')
+    case = {'family': 'decoy coordinate names next to the real ones', 'container': container, 'unit': g.unit,
+            'decoys': [ascii(k) for k in decoys]}
+    mon.origin = 'decoy names'
+    try:
+        judge_results(ctx, accessor_results(scn, da), g.want(), g.unit, case, 'decoy_names.accessor')
+        for real in ('position', 'sample_position', 'source_position'):
+            only = make_container(container, {**{k: v for k, v in coords.items() if k != real},
+                                              DECOY_NAMES[real]: coords[real]}, g.n)
+            mon.allowed_exc = (Exception,)
+            try:
+                r = scn.two_theta(only)
+                ctx.violation('accessor', f'scippneutron.two_theta computed an angle from data without a {real!r} '
+                              f'coordinate (only {ascii(DECOY_NAMES[real])} present)', dict(case, missing=real),
+                              accessor='two_theta')
+                del r
+            except Exception as e:  # noqa: BLE001
+                ctx.count(f'refused ({type(e).__name__}): data whose only {real} is stored under a name that merely '
+                          'normalises to it')
+            finally:
+                mon.allowed_exc = ()
+        # dims whose names differ only by normalisation are different dims: the beams span both
+        d1, d2 = '\u00e9cran', 'e\u0301cran'   # precomposed / decomposed
+        k1, k2 = int(rng.integers(2, 4)), int(rng.integers(2, 5))
+        a, b, _ = gen_pairs(rng, k1 * k2, ctx)
+        A, B = a[:k1], b[:k2]
+        r = K.two_theta(incident_beam=vec(A, g.unit, dims=(d1,)), scattered_beam=vec(B, g.unit, dims=(d2,)))
+        ctx.hit('beams along dims whose names differ only by Unicode normalisation')
+        ctx.event('unicode_dims.two_theta')
+        ok = set(r.dims) == {d1, d2} and dict(r.sizes) == {d1: k1, d2: k2}
+        if ok:
+            got = np.asarray(sc.transpose(r, dims=[d1, d2]).values).astype(si.LD)
+            ok = float(np.max(np.abs(got - geom.angle(A[:, None, :], B[None, :, :])))) <= TOL_ANGLE
+        if not ok:
+            ctx.violation('wrong_unit_or_dims', f'two_theta of beams along {ascii(d1)} ({k1}) and {ascii(d2)} ({k2}): '
+                          f'sizes {ascii(dict(r.sizes))} or values are not the {k1} x {k2} angles', case,
+                          function='two_theta')
+        ctx.event('decoy_names')
+    finally:
+        mon.origin = 'direct'
+        mon.allowed_exc = ()
+    return ('decoy_names', container, g.unit)
+
+
+# (5) first call in a fresh interpreter that imported only the module of the entry points
+_FRESH_SCRIPT = r"""
+import json, sys
+spec = json.loads(sys.stdin.read())
+try:
+    import importlib
+    M = importlib.import_module(spec['module'])   # the module of the entry points and nothing else
+    import numpy as np
+    import scipp as sc
+    def build(o):
+        vals = np.array([float.fromhex(x) for x in o['values']], dtype='float64').reshape(o['shape'])
+        if o['vector']:
+            return sc.vectors(dims=o['dims'], values=vals, unit=o['unit']) if o['dims'] else sc.vector(vals, unit=o['unit'])
+        return sc.array(dims=o['dims'], values=vals, unit=o['unit']) if o['dims'] else sc.scalar(float(vals), unit=o['unit'])
+except BaseException as e:
+    print(json.dumps({'import_error': type(e).__name__ + ': ' + str(e)}))
+    sys.exit(0)
+out = []
+for call in spec['calls']:
+    try:
+        a = {n: build(o) for n, o in call['args'].items()}
+        if spec['kind'] == 'kernel':
+            r = getattr(M, call['name'])(**a)
+        else:
+            da = sc.DataArray(sc.ones(dims=call['data_dims'], shape=call['data_shape']), coords=a)
+            if spec['kind'] == 'accessor':
+                r = getattr(M, call['name'])(da, **call['kw'])
+            else:
+                r = da.transform_coords(call['out'], graph=getattr(M, call['name'])(**call['kw'])).coords[call['out']]
+        out.append({'dims': list(r.dims), 'shape': list(np.shape(r.values)), 'unit': str(r.unit), 'dtype': str(r.dtype),
+                    'values': [float(x).hex() for x in np.ravel(r.values)]})
+    except BaseException as e:
+        out.append({'error': type(e).__name__ + ': ' + str(e)})
+print(json.dumps({'results': out, 'modules': sorted(m for m in sys.modules if m.startswith('scippneutron'))}))
+"""
+FRESH_MODULES = {'kernel': 'scippneutron.conversion.beamline', 'accessor': 'scippneutron.beamline_components',
+                 'graph': 'scippneutron.conversion.graph.beamline'}
+
+
+def _enc(v):
+    return {'dims': list(v.dims), 'shape': list(np.shape(v.values)), 'unit': str(v.unit),
+            'vector': v.dtype == sc.DType.vector3, 'values': [float(x).hex() for x in np.ravel(v.values)]}
+
+
+def fresh_interpreter_case(rng, ctx, scn, K, mon, kind, first):
+    """Every entry point of one module called in an interpreter that imported nothing but that module (entry point
+    number ``first`` is the very first call made there): each result is judged against the Euclidean definition."""
+    import json
+    import os
+    import subprocess
+    import sys
+
+    g = Geometry(rng, ctx, int(rng.integers(2, 7)))
+    want = g.want()
+    pc = g.position_coords()
+    l1 = sc.scalar(float(np.linalg.norm(g.inc)), unit=g.unit)
+    l2 = sc.array(dims=['pixel'], values=np.linalg.norm(g.sca, axis=1), unit=g.unit)
+    want_local = dict(want)
+    want_local['Ltotal_lengths'] = ('rel', np.asarray(l1.value, dtype=si.LD) + np.asarray(l2.values).astype(si.LD))
+    if kind == 'kernel':
+        calls = [('straight_incident_beam', 'incident_beam', {k: pc[k] for k in ('source_position', 'sample_position')}),
+                 ('straight_scattered_beam', 'scattered_beam', {k: pc[k] for k in ('position', 'sample_position')}),
+                 ('L1', 'L1', {'incident_beam': vec(g.inc, g.unit)}),
+                 ('L2', 'L2', {'scattered_beam': vec(g.sca, g.unit)}),
+                 ('two_theta', 'two_theta', {'incident_beam': vec(g.inc, g.unit), 'scattered_beam': vec(g.sca, g.unit)}),
+                 ('total_beam_length', 'Ltotal_lengths', {'L1': l1, 'L2': l2}),
+                 ('total_straight_beam_length_no_scatter', 'Ltotal_noscatter',
+                  {k: pc[k] for k in ('source_position', 'position')})]
+        spec_calls = [{'name': n, 'args': {k: _enc(v) for k, v in a.items()}} for n, _, a in calls]
+    else:
+        names = [('incident_beam', 'incident_beam', {}), ('scattered_beam', 'scattered_beam', {}), ('L1', 'L1', {}),
+                 ('L2', 'L2', {}), ('two_theta', 'two_theta', {}), ('Ltotal', 'Ltotal_scatter', {'scatter': True}),
+                 ('Ltotal', 'Ltotal_noscatter', {'scatter': False})]
+        if kind == 'graph':
+            names.append(('beamline', 'two_theta', {'scatter': True}))
+        calls = [(n, key, pc) for n, key, _ in names]
+        spec_calls = [{'name': n, 'args': {k: _enc(v) for k, v in pc.items()}, 'kw': kw, 'data_dims': ['pixel'],
+                       'data_shape': [g.n], 'out': key.split('_')[0] if key.startswith('Ltotal') else key}
+                      for n, key, kw in names]
+    first %= len(calls)
+    calls = calls[first:] + calls[:first]
+    spec_calls = spec_calls[first:] + spec_calls[:first]
+    env = dict(os.environ)
+    env['PYTHONPATH'] = os.pathsep.join(p for p in sys.path if p)
+    try:
+        proc = subprocess.run([sys.executable, '-c', _FRESH_SCRIPT], capture_output=True, text=True, env=env,
+                              input=json.dumps({'module': FRESH_MODULES[kind], 'kind': kind, 'calls': spec_calls}),
+                              timeout=300, check=False)
+        reply = json.loads(proc.stdout.strip().splitlines()[-1])
+    except Exception:  # noqa: BLE001
+        ctx.oracle_error('C03 fresh interpreter: no reply from the subprocess')
+        return
+    case0 = {'family': f'first call in a fresh interpreter that imported only {FRESH_MODULES[kind]}', 'unit': g.unit,
+             'coords': {k: describe(v) for k, v in pc.items()}}
+    if 'import_error' in reply:
+        ctx.violation('fresh_interpreter', f'importing {FRESH_MODULES[kind]} alone in a fresh interpreter failed: '
+                      + reply['import_error'], case0, module=kind)
+        return
+    ctx.hit('first call in a fresh interpreter with minimal imports: ' + kind)
+    ctx.extra['fresh_interpreter_modules:' + kind] = reply.get('modules')
+    for (name, key, _), got in zip(calls, reply['results'], strict=True):
+        case = dict(case0, entry_point=name, quantity=key, first_call_there=calls[0][0])
+        if 'error' in got:
+            ctx.violation('fresh_interpreter', f'{FRESH_MODULES[kind]}.{name} raised in a fresh interpreter that '
+                          f'imported only its module: {got["error"]}', case, module=kind)
+            continue
+        try:
+            vals = np.array([float.fromhex(x) for x in got['values']], dtype=np.float64).reshape(got['shape'])
+            if got['dtype'] == 'vector3':
+                r = sc.vectors(dims=got['dims'], values=vals, unit=got['unit']) if got['dims'] else sc.vector(
+                    vals, unit=got['unit'])
+            else:
+                r = sc.array(dims=got['dims'], values=vals, unit=got['unit']) if got['dims'] else sc.scalar(
+                    float(vals), unit=got['unit'])
+        except Exception:  # noqa: BLE001
+            ctx.oracle_error('C03 fresh interpreter: rebuilding the result')
+            continue
+        if got['dtype'] not in ('float64', 'vector3'):
+            ctx.violation('fresh_interpreter', f'{name} in a fresh interpreter has dtype {got["dtype"]}', case,
+                          module=kind)
+            continue
+        judge_results(ctx, {key: r}, want_local, g.unit, case, 'fresh_interpreter', kind='fresh_interpreter',
+                      module=kind)
+    # the same calls in the worker (judged by the kernel monitors)
+    mon.origin = 'fresh interpreter (worker side)'
+    try:
+        if kind == 'kernel':
+            for name, _, a in calls:
+                getattr(K, name)(**a)
+        else:
+            accessor_results(scn, make_container('dataarray', pc, g.n))
+    finally:
+        mon.origin = 'direct'
+
+
 def forced_sweeps(rng, ctx, scn, K, mon, index, rep, n_regular=16):
     """The classes every shard runs whatever the random draws are."""
     kinds = sorted(set(CONTAINERS))
@@ -1467,6 +2107,36 @@ def forced_sweeps(rng, ctx, scn, K, mon, index, rep, n_regular=16):
             ctx.violation('kernel_raised_outer', f'lengths with variances ({form}): {type(e).__name__}: {e}',
                           {'family': 'variances', 'form': form})
     second_use_case(rng, ctx, scn, K, mon, index, rep)
+    # round-7 classes: tiny non-zero components (0-d pairs first), in-place modification / aliasing with the origins
+    # exactly at zero, sizes coinciding with the vector length, decoy names / non-normalised dims
+    for j, form in enumerate(TINY_FORMS):
+        try:
+            ctx.case(tiny_component_case(rng, ctx, scn, K, mon, form, index + j + rep))
+        except Exception as e:  # noqa: BLE001
+            mon.origin = 'direct'
+            ctx.violation('kernel_raised_outer', f'beams with a tiny non-zero component ({form}): '
+                          f'{type(e).__name__}: {e}', {'family': 'tiny component', 'form': form})
+    for origin in ORIGIN_FORMS:
+        try:
+            aliasing_case(rng, ctx, scn, K, mon, origin, index, rep)
+        except Exception as e:  # noqa: BLE001
+            mon.origin = 'direct'
+            ctx.violation('kernel_raised_outer', f'in-place modification / aliasing ({origin}): '
+                          f'{type(e).__name__}: {e}', {'family': 'aliasing', 'origin': origin})
+    for shape in COINCIDING_SHAPES:
+        try:
+            ctx.case(coinciding_sizes_case(rng, ctx, scn, K, mon, shape, index + rep))
+        except Exception as e:  # noqa: BLE001
+            mon.origin = 'direct'
+            ctx.violation('kernel_raised_outer', f'beams of shape {shape}: {type(e).__name__}: {e}',
+                          {'family': 'coinciding sizes', 'shape': list(shape)})
+    try:
+        ctx.case(decoy_names_case(rng, ctx, scn, K, mon, index + rep))
+    except Exception as e:  # noqa: BLE001
+        mon.origin = 'direct'
+        mon.allowed_exc = ()
+        ctx.violation('accessor_raised', f'data with decoy coordinate names: {type(e).__name__}: {e}',
+                      {'family': 'decoy names'}, container='decoy names')
     for j, n in enumerate(SIZE_POINTS):
         if (j + rep) % n_regular != index % n_regular:
             continue
@@ -1499,7 +2169,16 @@ def requirements(tier):
     ev.update({'graph_node': 7, 'variances': len(VARIANCE_FORMS), 'total_beam_length.variances': 4,
                'second_use.second': 5 * len(BETWEEN), 'second_use.kernels_on_results': 4,
                'second_use.graph_fresh': 7, 'size_class': len(SIZE_POINTS), 'heavy.accessor': 5,
-               'heavy.accessor.two_theta': 1, 'heavy.result': 6})
+               'heavy.accessor.two_theta': 1, 'heavy.result': 6,
+               'tiny_component.kernel': len(TINY_FORMS), 'tiny_component.two_theta': 10 * len(TINY_FORMS),
+               'tiny_component.accessor': 5 * len(TINY_FORMS),
+               'aliasing.earlier_result_after_write_to_argument': 8 * len(ORIGIN_FORMS),
+               'in_place.second_call': 8 * len(ORIGIN_FORMS),
+               'aliasing.arguments_after_write_to_result': 14 * len(ORIGIN_FORMS),
+               'aliasing.repeated_call': 8 * len(ORIGIN_FORMS), 'aliasing.accessor': 21 * len(ORIGIN_FORMS),
+               'coinciding_sizes.two_theta': 2 * len(COINCIDING_SHAPES), 'coinciding_sizes.accessor': 5 * 6,
+               'coinciding_sizes.accessor.L1': 6, 'decoy_names': 1, 'decoy_names.accessor': 7,
+               'unicode_dims.two_theta': 1, 'fresh_interpreter': 7 + 7 + 8})
     return {'events': ev, 'forced': ['angle:' + c for c in ANGLE_CLASSES] + ['axis-aligned beamline, sample at origin', 'per-pixel incident, scalar scattered', 'beams along different dimensions']
             + ['accessor container ' + c for c in sorted(set(CONTAINERS))]
             + ['scatter flag given as ' + f.__name__ for f in FLAG_FORMS]
@@ -1521,7 +2200,16 @@ def requirements(tier):
             + [f'nearly uniform beam norm 1e{d}' for d in NORM_DECADES]
             + ['nearly uniform layout: ' + x for x in NU_LAYOUTS]
             + ['nearly uniform positions: ' + w for w in NU_POSITIONS]
-            + ['per-pixel positions spread ' + x for x in (*SPREADS, 'independent')]}
+            + ['per-pixel positions spread ' + x for x in (*SPREADS, 'independent')]
+            + ['tiny non-zero component: ' + f for f in TINY_FORMS]
+            + ['0-d beam pair with a component of 1e-160 .. 1e-300 (or subnormal) next to ordinary components']
+            + ['aliasing / in-place: ' + o for o in ORIGIN_FORMS]
+            + ['operand written in place between two calls: ' + w for w in WRITES]
+            + ['size coinciding with the vector length: shape ' + 'x'.join(map(str, s)) for s in COINCIDING_SHAPES]
+            + ['coinciding sizes layout: ' + x for x in COINCIDING_LAYOUTS]
+            + ['coordinates under names that merely normalise (NFKC) to beamline names next to the real ones',
+               'beams along dims whose names differ only by Unicode normalisation']
+            + ['first call in a fresh interpreter with minimal imports: ' + k for k in FRESH_MODULES]}
 
 
 def run(shard, ctx):
@@ -1583,6 +2271,15 @@ def run(shard, ctx):
                 ctx.count('not refused: keyword-only kernel called positionally')
             except TypeError:
                 ctx.count('refused (TypeError): keyword-only kernel called positionally')
+        if shard.get('direct') and shard['index'] in (1, 2, 3):
+            # one entry-point module per shard in an interpreter of its own (shards 1..3: not repeated by the
+            # environment variants of shard 0)
+            kind = ('kernel', 'accessor', 'graph')[shard['index'] - 1]
+            try:
+                fresh_interpreter_case(rng, ctx, scn, K, mon, kind, shard['seed'])
+            except Exception:  # noqa: BLE001
+                mon.origin = 'direct'
+                ctx.oracle_error('C03 fresh interpreter harness')
         if shard.get('heavy'):
             heavy_case(rng, ctx, scn, K, mon, shard['seed'])
     ctx.extra['mpmath_selftest'] = _selftest(ctx, rng)
@@ -1618,7 +2315,9 @@ LEVEL_TEXT = ('exploration: every observed return of the geometry kernels (direc
               'rescale, rotation and translation invariance on observed values; data with supplied L1/L2/Ltotal '
               'coordinates and nearly uniform per-pixel beams are judged per pixel against the same definition; '
               'so are all calling conventions, caller-made graphs with the kernels as nodes, repeated use of the '
-              'same data and arrays of up to 2^21+5 beam vectors (every element). '
+              'same data and arrays of up to 2^21+5 beam vectors (every element); results and arguments are checked '
+              'to be independent objects around in-place writes, and the same objects are used again after an in-place '
+              'modification. '
               'Sampled inputs, not a proof.')
 LEVEL_NOTE = ('trusted: numpy long double, mpmath (self-test), scipp vector containers and broadcasting, '
               'IEEE float64 subtraction as the model of a position difference')
